@@ -17,6 +17,6 @@ if '-v' in sys.argv:
     set_debug(True)
 if mode.startswith('witness:'):
     hlib.STATE['witness'] = mode.split(':',1)[1]; mode = 'main'
-r = chcore.analyze(o.fn, mode, timeout=to or o.timeout, per_path_timeout=o.per_path_timeout)
+r = chcore.analyze(o.fn, mode, timeout=to or o.timeout, per_path_timeout=o.per_path_timeout or max(10.0, o.timeout / 3.0))
 r.pop('functions', None)
 print(json.dumps(r, indent=1)[:6000])
